@@ -259,10 +259,10 @@ func removePadding(payload []byte) ([]byte, byte) {
 	// if len(payload) >= (paddingLen - 1) then the MSB of t is zero
 	good := byte(int32(^t) >> 31)
 
-	toCheck := 255 // the maximum possible padding length
+	toCheck := 256 // the maximum possible padding length plus the length byte
 	// The length of the padded data is public, so we can use an if here
-	if toCheck+1 > len(payload) {
-		toCheck = len(payload) - 1
+	if toCheck > len(payload) {
+		toCheck = len(payload)
 	}
 
 	for i := 0; i < toCheck; i++ {
@@ -280,8 +280,8 @@ func removePadding(payload []byte) ([]byte, byte) {
 	good &= good << 1
 	good = uint8(int8(good) >> 7)
 
-	toRemove := good&paddingLen + 1
-	return payload[:len(payload)-int(toRemove)], good
+	toRemove := int(good&paddingLen) + 1
+	return payload[:len(payload)-toRemove], good
 }
 
 // removePaddingSSL30 is a replacement for removePadding in the case that the
